@@ -284,7 +284,7 @@ pub fn run(tier: Tier) -> i32 {
         "C14",
         tier,
         "exploration",
-        "(a) EXHAUSTIVE matrix: every strict, reserved and edition-2024 Rust keyword x spelling (as is, Capitalised, UPPER) x position (element, attribute, complex type, simple type, global element, operation, message part, message name, service name), one WSDL each; (d) 16 whole names that are not words (_, __, -, ., digits, Self, self, crate, super, r#type, ...) at every name position; (c) 22 number-like facet values (+5, 007, 5.0, 1e3, out-of-range, non-ASCII digits ...); (b) EXHAUSTIVE product of 44 dangerous texts x 16 positions, then every dangerous text in the path, query and fragment of the address and action URLs and in an opaque action URI, and in thorough 6000 further proptest-chosen pairs: payloads (non-ASCII numerics, quotes, backslashes, braces, CR/LF/tab, comment delimiters, '; pub fn INJ() {} //'-style injections for attribute, comment, constructor and function contexts, non-ASCII letters, r#, digits) with a random prefix, a unique marker and a unique injected identifier, placed at each of 16 positions where schema text flows into the output (names, enumeration and facet values, documentation, namespace URI, soap:address, soapAction, service name). Oracle: syn::parse_file succeeds; the injected identifier never occurs as an identifier token; every string literal (doc comments included) that carries the marker evaluates to the original text (URLs: equal after parsing); rustc accepts the file. An input the generator rejects is fine. Non-trivial: payload containing one of \" \\ { } CR LF */ or a keyword; distinct by (position, text).",
+        "(a) EXHAUSTIVE matrix: every strict, reserved and edition-2024 Rust keyword x spelling (as is, Capitalised, UPPER) x position (element, attribute, complex type, simple type, global element, operation, message part, message name, service name), one WSDL each; (d) 26 whole names that are not words (_, __, -, ., digits, Self, self, crate, super, r#type, and names such as Self- or S-elf that become a keyword once sanitised) at every name position; (c) 22 number-like facet values (+5, 007, 5.0, 1e3, out-of-range, non-ASCII digits ...); (b) EXHAUSTIVE product of 44 dangerous texts x 16 positions, then every dangerous text in the path, query and fragment of the address and action URLs and in an opaque action URI, and in thorough 6000 further proptest-chosen pairs: payloads (non-ASCII numerics, quotes, backslashes, braces, CR/LF/tab, comment delimiters, '; pub fn INJ() {} //'-style injections for attribute, comment, constructor and function contexts, non-ASCII letters, r#, digits) with a random prefix, a unique marker and a unique injected identifier, placed at each of 16 positions where schema text flows into the output (names, enumeration and facet values, documentation, namespace URI, soap:address, soapAction, service name). Oracle: syn::parse_file succeeds; the injected identifier never occurs as an identifier token; every string literal (doc comments included) that carries the marker evaluates to the original text (URLs: equal after parsing); rustc accepts the file. An input the generator rejects is fine. Non-trivial: payload containing one of \" \\ { } CR LF */ or a keyword; distinct by (position, text).",
     );
     ev.assume("comments are invisible to the token stream, so text that only reaches comments is accepted by construction as long as the file still parses and the injected identifier is no token");
     let ex = match Externs::discover() {
@@ -437,7 +437,11 @@ pub fn run(tier: Tier) -> i32 {
         }
     }
     // (d) whole names that are not words: punctuation-only, digits-only, path keywords, raw-looking
-    let odd: [&str; 16] = ["_", "__", "-", ".", "_1", "1", "1a", "é", "Self", "self", "crate", "super", "r#type", "a b", "a--b", "_type"];
+    let odd: [&str; 26] = [
+        "_", "__", "-", ".", "_1", "1", "1a", "é", "Self", "self", "crate", "super", "r#type", "a b", "a--b", "_type",
+        // names that only become a keyword once the characters an identifier cannot hold are gone
+        "Self-", "-Self", "S-elf", "Self.", "self-", "s.elf", "cr-ate", "-super", "ty-pe", "f.n",
+    ];
     let mut ocases: Vec<(usize, String)> = vec![];
     for v in odd {
         for (pi, p) in POSITIONS.iter().enumerate() {
